@@ -913,8 +913,9 @@ class ArgumentParser(ParserDeprecations, ActionsContainer, ArgumentLinking, argp
         check_overwrite(path_fc)
 
         if not multifile:
+            dump = self.dump(cfg, **dump_kwargs)  # type: ignore[arg-type]
             with open(path_fc.absolute, "w") as f:
-                f.write(self.dump(cfg, **dump_kwargs))  # type: ignore[arg-type]
+                f.write(dump)
 
         else:
             cfg = cfg.clone()
@@ -923,6 +924,8 @@ class ArgumentParser(ParserDeprecations, ActionsContainer, ArgumentLinking, argp
             if not skip_validation:
                 with parser_context(load_value_mode=self.parser_mode):
                     self.validate(strip_meta(cfg), branch=branch)
+
+            writes = []  # nothing is written until everything has been serialized
 
             def save_paths(cfg):
                 for key in cfg.get_sorted_keys():
@@ -940,8 +943,7 @@ class ArgumentParser(ParserDeprecations, ActionsContainer, ArgumentLinking, argp
                             else:
                                 is_json = str(val_path).lower().endswith(".json")
                                 val_str = dump_using_format(self, val_out, "json_indented" if is_json else format)
-                            with open(val_path.absolute, "w") as f:
-                                f.write(val_str)
+                            writes.append((val_path.absolute, val_str))
                             cfg[key] = os.path.basename(val_path.absolute)
                     elif isinstance(val, Path) and key in self.save_path_content and "r" in val.mode:
                         val_path = Path(os.path.basename(val.absolute), mode="fc")
@@ -953,8 +955,10 @@ class ArgumentParser(ParserDeprecations, ActionsContainer, ArgumentLinking, argp
             with change_to_path_dir(path_fc), parser_context(parent_parser=self):
                 save_paths(cfg)
             dump_kwargs["skip_validation"] = True
-            with open(path_fc.absolute, "w") as f:
-                f.write(self.dump(cfg, **dump_kwargs))  # type: ignore[arg-type]
+            writes.append((path_fc.absolute, self.dump(cfg, **dump_kwargs)))  # type: ignore[arg-type]
+            for write_path, write_content in writes:
+                with open(write_path, "w") as f:
+                    f.write(write_content)
 
     ## Methods related to defaults ##
 
